@@ -20,6 +20,8 @@ import sys
 import time
 
 VERIF = os.path.dirname(os.path.dirname(os.path.abspath(__file__)))
+# where evidence/ and replays/ are written (default: /verif itself; redirected by the seed-matrix tool)
+OUTDIR = os.environ.get('PYVC_OUT', VERIF)
 sys.path.insert(0, VERIF)
 
 CONTRACT_MODULES = ['contracts.leaves', 'contracts.stages', 'contracts.stages2', 'contracts.parallel',
@@ -220,7 +222,7 @@ def main():
     out_lines = []
     replays = []
     if violations:
-        os.makedirs(os.path.join(VERIF, 'replays'), exist_ok=True)
+        os.makedirs(os.path.join(OUTDIR, 'replays'), exist_ok=True)
         seen = set()
         for r, o in violations:
             key = o['name']
@@ -228,7 +230,7 @@ def main():
                 continue
             seen.add(key)
             safe = re.sub(r'[^A-Za-z0-9_.-]+', '_', o['name'])[:150]
-            path = os.path.join(VERIF, 'replays', '%s-%s.json' % (prop, safe))
+            path = os.path.join(OUTDIR, 'replays', '%s-%s.json' % (prop, safe))
             rep = {'property': prop, 'obligation': o['name'], 'solver_model': o.get('model', {}),
                    'note': o.get('note', ''), 'label': r.get('label', ''), 'function': r.get('qual', '')}
             json.dump(rep, open(path, 'w'), indent=1)
@@ -246,10 +248,10 @@ def main():
     elif undecided:
         # an undecided obligation is never a violation by itself; the bounded native search of
         # the same clause family may still find a failing input on the real code
-        os.makedirs(os.path.join(VERIF, 'replays'), exist_ok=True)
+        os.makedirs(os.path.join(OUTDIR, 'replays'), exist_ok=True)
         for lab, why in undecided:
             safe = re.sub(r'[^A-Za-z0-9_.-]+', '_', lab)[:150]
-            path = os.path.join(VERIF, 'replays', '%s-undecided-%s.json' % (prop, safe))
+            path = os.path.join(OUTDIR, 'replays', '%s-undecided-%s.json' % (prop, safe))
             rep = {'property': prop, 'obligation': lab, 'note': 'UNDECIDED by the prover: %s' % why}
             json.dump(rep, open(path, 'w'), indent=1)
             nat = native(['-m', 'harness.replay', path, '--search'])
@@ -277,7 +279,7 @@ def main():
         standins = sr.get('standins', [])
         for s in standins:
             if s.get('failures'):
-                path = os.path.join(VERIF, 'replays', '%s-standin-%s.json' % (prop, s['name']))
+                path = os.path.join(OUTDIR, 'replays', '%s-standin-%s.json' % (prop, s['name']))
                 os.makedirs(os.path.dirname(path), exist_ok=True)
                 json.dump(s, open(path, 'w'), indent=1)
                 kf = [f for f in findings if f.get('status') == 'open' and prop in f.get('properties', [])
@@ -323,8 +325,8 @@ def main():
         'wall_s': round(wall, 2),
         'violations': len(replays),
     }
-    os.makedirs(os.path.join(VERIF, 'evidence'), exist_ok=True)
-    json.dump(ev, open(os.path.join(VERIF, 'evidence', '%s.json' % prop), 'w'), indent=1)
+    os.makedirs(os.path.join(OUTDIR, 'evidence'), exist_ok=True)
+    json.dump(ev, open(os.path.join(OUTDIR, 'evidence', '%s.json' % prop), 'w'), indent=1)
     print('%s: %d obligations, %d discharged, %d variants, %.1fs, exit %d'
           % (prop, n_ob, n_dis, len(results), wall, exit_code))
     sys.exit(exit_code)
